@@ -185,7 +185,7 @@ func c06Case(c *core.Ctx, idx int) {
 	}
 	// the result depends on the value alone also while other goroutines marshal other values of the
 	// type on the same instance, by value and by pointer
-	if idx%4 == 2 && len(seenVals) > 1 {
+	if idx%3 == 2 && len(seenVals) > 1 {
 		const g, rounds = 4, 12
 		same := func(i int, a, b []byte) bool { return bytes.Equal(a, b) }
 		rec.Eval(g * rounds * len(seenVals))
@@ -208,7 +208,7 @@ func init() {
 		ID:        "C06",
 		Technique: "append-contract monitor: real Marshal called with prefixes of several lengths/capacities, re-used buffers, by value and by pointer, repeatedly; results compared with Marshal(nil,v)",
 		Rule: "generated types (every fifth wrapped into a struct that Go stores directly in the interface word: single pointer / map / nested single-pointer field) x boundary-biased values incl. the zero value and values that encode to nothing; " +
-			"per value: 2 repetitions, by-value call, 12 (prefix length, spare capacity) shapes with a snapshot of the destination, one call into a buffer re-used along the case, in-place mutation of the same variable followed by calls into non-nil buffers; every fourth case ends with 4 goroutines marshalling the case's values at once by value and by pointer. Bytes compared exactly, or through the model's canonical parse when the value holds a multi-entry map. distinct = (type, configuration, value-shape) hashes with non-zero content",
+			"per value: 2 repetitions, by-value call, 12 (prefix length, spare capacity) shapes with a snapshot of the destination, one call into a buffer re-used along the case, in-place mutation of the same variable followed by calls into non-nil buffers; every third case ends with 4 goroutines marshalling the case's values at once by value and by pointer. Bytes compared exactly, or through the model's canonical parse when the value holds a multi-entry map. distinct = (type, configuration, value-shape) hashes with non-zero content",
 		Assume: []string{"model.Canon for comparing encodings that differ only in map entry order"},
 		Plan: func(tier string) []core.Lane {
 			if tier == "thorough" {
